@@ -478,3 +478,61 @@ def check_boundary_slice(ctx, m, cfg, rule="R-SIB"):
                        % (f.name, _name_of(f, hs[0]), _name_of(f, hs[1]), _name_of(f, ps[0]), _name_of(f, ps[1])))
     ctx.floor(rule, "callers choosing between the hexagon and the pentagon boundary builder", n, 3)
     return n
+
+
+# ---------------------------------------------------------------------------------------------------------------
+# R-SIB loop / box ownership: the loop tests take (loop, that loop's bounding box, ...) as adjacent arguments.  In a function that
+# receives a polygon and its box array, the array belongs to the polygon's loops: the outer loop goes with bboxes[0], hole X with
+# bboxes[X + 1] (checked above), and a loop that is NOT part of the polygon (the cell boundary turned into a loop) must not be tested
+# with an element of that array - the transmeridian flag and the fast reject come from the box (seeded C07-6).
+def check_loopbox(ctx, m, cfg, rule="R-SIB"):
+    n = 0
+    for f in m.defined():
+        pk = [k for k, a in enumerate(f.args) if a["type"] == "%struct.GeoPolygon*"]
+        bks = [k for k, a in enumerate(f.args) if a["type"] == "%struct.BBox*"]
+        if len(pk) != 1 or not bks:
+            continue
+
+        def ty(o):
+            return f.args[o[1]]["type"] if o[0] == "a" else (f.insts[o[1]].type if o[0] == "i" else "")
+
+        def loop_kind(o):
+            if _hole_index(m, f, o) is not None:
+                return "hole"
+            base, path = ir.field_path(m, f, o)
+            if base == ("a", pk[0]) and len(path) == 1 and path[0][0] == "f" and path[0][2] == "geoloop":
+                return "outer"
+            return "other"
+
+        def box_param(o):
+            base, path = ir.field_path(m, f, o)
+            return base[1] if base[0] == "a" and base[1] in bks else None
+        pairs = []
+        for c in f.all_insts():
+            if c.op != "call" or not c.callee or c.callee.startswith("llvm."):
+                continue
+            for k in range(len(c.ops) - 1):
+                if ty(c.ops[k]) == "%struct.GeoLoop*" and ty(c.ops[k + 1]) == "%struct.BBox*":
+                    pairs.append((c, c.ops[k], c.ops[k + 1]))
+        # the box array of the polygon: the BBox* parameter(s) that are paired with loops of the polygon
+        owned = {box_param(b) for c, l, b in pairs if loop_kind(l) in ("hole", "outer") and box_param(b) is not None}
+        for c, l, b in pairs:
+            lk, bp = loop_kind(l), box_param(b)
+            if lk == "hole":
+                continue            # index agreement is the holebbox rule's business
+            n += 1
+            inst = {"function": f.name, "callee": c.callee, "at": c.where(), "loop": lk, "config": cfg}
+            if lk == "outer":
+                y = _bbox_index(m, f, b) if b[0] == "i" else (["c", 0, 64] if b[0] == "a" else None)
+                if bp is None or bp not in owned or y is None or not (y[0] == "c" and y[1] == 0):
+                    ctx.violation(rule, "loopbox:%s:%s" % (f.name, c.callee), "%s tests the polygon's outer loop with a bounding box that is not element 0 of the polygon's box array (%s)"
+                                  % (f.name, c.callee), c.where(), inst)
+                else:
+                    ctx.ok(rule, inst, "the outer loop is tested with bboxes[0]")
+            else:
+                if bp is not None and bp in owned:
+                    ctx.violation(rule, "loopbox:%s:%s" % (f.name, c.callee), "%s passes a loop that is not part of the polygon to %s together with an element of the polygon's bounding-box "
+                                  "array '%s': the box (fast reject, transmeridian flag) belongs to another loop" % (f.name, c.callee, f.args[bp]["name"]), c.where(), inst)
+                else:
+                    ctx.ok(rule, inst, "a loop outside the polygon is tested with its own box, not with the polygon's box array")
+    return n
